@@ -63,6 +63,9 @@ func (PoolH) Gen(prop string, seed uint64, tier string) *hx.Case {
 	cfg.MaxConsec = []int{50, 500, 5000}[r.Intn(3)]
 	cfg.SchedSeed = r.U64()
 	cfg.YieldP = []float64{0, 0.02, 0.1, 0.3}[r.Intn(4)]
+	if r.Chance(0.25) {
+		cfg.PCT, cfg.PCTSteps = r.Range(1, 4), []int{300, 2000, 10000, 40000}[r.Intn(4)]
+	}
 	cfg.Now0 = 1893456000 + int64(seed%3000)*86400 // 2030-01-01 + up to ~8 years: beyond the real clock the package was initialised with
 	cfg.NotFullRBF = r.Chance(0.3)
 	cfg.ExpireDays = uint(r.Range(1, 14))
@@ -825,7 +828,7 @@ func (PoolH) Run(t *testing.T, c *hx.Case) *hx.Outcome {
 	p.m = &ledger.Miner{L: p.l, W: ledger.NewWallet(walletSeed, walletKeys), R: hx.NewRng(1)}
 	registerPrefixScripts(p.m.W, cfg.Testnet)
 
-	scfg := simrt.Config{Seed: cfg.SchedSeed, YieldP: cfg.YieldP, TimerP: cfg.TimerP, MaxConsec: cfg.MaxConsec, StepBudget: 60_000_000}
+	scfg := simrt.Config{Seed: cfg.SchedSeed, YieldP: cfg.YieldP, TimerP: cfg.TimerP, MaxConsec: cfg.MaxConsec, StepBudget: 60_000_000, PCT: cfg.PCT, PCTSteps: cfg.PCTSteps}
 	res := simrt.Run(scfg, func() {
 		simrt.Sleep(time.Unix(cfg.Now0, 0).Sub(time.Now()))
 		// configuration as client/init.go + common.Reset() do it
